@@ -32,6 +32,45 @@ fn junk_unit(rng: &mut Rng) -> String {
     s
 }
 
+/// A valid literal and a junk literal that differs from it only by white space *inside* the number or the unit.
+fn twin_with_inner_space(rng: &mut Rng, units: &[&str]) -> (String, String) {
+    let number = (10 + rng.below(990)).to_string();
+    let unit = *rng.pick(units);
+    let twin = format!("{} {}", number, unit);
+    let junk = if rng.chance(1, 2) || unit.len() < 2 {
+        let cut = 1 + rng.usize_below(number.len() - 1);
+        format!("{} {} {}", &number[..cut], &number[cut..], unit)
+    } else {
+        let cut = 1 + rng.usize_below(unit.len() - 1);
+        format!("{} {} {}", number, &unit[..cut], &unit[cut..])
+    };
+    (twin, junk)
+}
+
+fn twins(rep: &mut Report, rng: &mut Rng, _idx: u64) {
+    // parse the well-formed twin first, then the junk, on the same thread
+    let (twin, junk) = twin_with_inner_space(rng, &["seconds", "minutes", "hours", "days", "weeks", "months", "years"]);
+    let a = serde_json::from_str::<TimeTriggerInterval>(&serde_json::to_string(&twin).unwrap());
+    let b = trap::catch(|| serde_json::from_str::<TimeTriggerInterval>(&serde_json::to_string(&junk).unwrap()).map(|v| format!("{:?}", v)));
+    rep.case(&format!("twin|{}|{}", twin, junk), true);
+    rep.count("junk_literals_parsed_right_after_their_valid_twin", 1);
+    if a.is_err() {
+        rep.violation("C20:interval:good-literal-rejected", json!({"literal": twin}));
+    }
+    if let Ok(Ok(v)) = b {
+        rep.violation("C20:interval:bad-literal-accepted:after-its-valid-twin", json!({"literal": junk, "parsed_just_before": twin, "got": v}));
+    }
+    let (twin, junk) = twin_with_inner_space(rng, &["kb", "mb", "gb", "kib", "mib", "b"]);
+    let a = serde_json::from_str::<SizeTriggerConfig>(&format!("{{\"limit\": {}}}", serde_json::to_string(&twin).unwrap()));
+    let b = trap::catch(|| serde_json::from_str::<SizeTriggerConfig>(&format!("{{\"limit\": {}}}", serde_json::to_string(&junk).unwrap())).map(|v| format!("{:?}", v)));
+    if a.is_err() {
+        rep.violation("C20:size:good-literal-rejected", json!({"literal": twin}));
+    }
+    if let Ok(Ok(v)) = b {
+        rep.violation("C20:size:bad-literal-accepted:after-its-valid-twin", json!({"literal": junk, "parsed_just_before": twin, "got": v}));
+    }
+}
+
 fn mixed_case(s: &str, rng: &mut Rng) -> String {
     // ASCII case changes only: Unicode case mapping would turn look-alikes (U+017F, U+212A) into real units
     match rng.below(3) {
@@ -388,6 +427,7 @@ pub fn run(rep: &mut Report) {
     let n = if rep.tier == "thorough" { 500_000 } else { 80_000 };
     run_cases(rep, "size", n, size_case);
     run_cases(rep, "interval", n, interval_case);
+    run_cases(rep, "twins", if rep.tier == "thorough" { 40_000 } else { 4_000 }, twins);
     run_cases(rep, "behaviour", if rep.tier == "thorough" { 400 } else { 40 }, behavioural);
     refresh_rate(rep);
     concurrent_literals(rep);
